@@ -30,7 +30,7 @@ func (g *c17Ghost) enterR() {
 }
 func (g *c17Ghost) exitR() { g.readers.Add(-1) }
 
-//verif:h prop=C17 p.threads=2/3 p.pairs=2/2 preempt=3/3 cover=done runs=5000000 timeout=250/900 steps=200000
+//verif:h prop=C17 p.threads=2/3 p.pairs=2/2 preempt=3/3 cover=done runs=5000000 timeout=900/900 steps=200000
 func H_C17_starving() {
 	m := NewStarvingMutex()
 	g := &c17Ghost{}
@@ -67,7 +67,7 @@ func H_C17_starving() {
 	verifrt.Assert(m.readersActive == 0 && !m.writerActive && m.pendingWriters == 0, "StarvingMutex state not back to idle after all holders released")
 }
 
-//verif:h prop=C17 p.threads=2/3 preempt=2/3 cover=done runs=5000000 timeout=250/900 steps=300000
+//verif:h prop=C17 p.threads=2/3 preempt=2/3 cover=done runs=5000000 timeout=900/900 steps=300000
 func H_C17_dag() {
 	d := NewDAGMutex[int]()
 	g := [2]*c17Ghost{{}, {}}
@@ -168,7 +168,7 @@ func H_C17_unheld() {
 // H_C17_counter: WaitIsZero / WaitIsBelow / WaitIsAbove return only if the condition held at some instant
 // since the call, and do return when the condition holds for good (otherwise: deadlock detector).
 //
-//verif:h prop=C17 p.updates=2/3 preempt=2/3 cover=returned runs=5000000 timeout=250/900 steps=300000
+//verif:h prop=C17 p.updates=2/3 preempt=2/3 cover=returned runs=5000000 timeout=900/900 steps=300000
 func H_C17_counter() {
 	c := NewCounter()
 	type sample struct{ stamp, value int }
@@ -246,7 +246,7 @@ func H_C17_counter() {
 
 // H_C17_stack: PopOrWait / WaitIsEmpty on syncutils.Stack.
 //
-//verif:h prop=C17 preempt=2/3 cover=popped,empty runs=5000000 timeout=250/900 steps=300000
+//verif:h prop=C17 preempt=2/3 cover=popped,empty runs=5000000 timeout=900/900 steps=300000
 func H_C17_stack() {
 	s := NewStack[int]()
 	pre := verifrt.Choose("prefill", 2)
@@ -285,7 +285,7 @@ func H_C17_stack() {
 // H_C17_stack_waiters: several goroutines wait for the stack to become empty (or to shrink below a
 // threshold); one removal through Pop or PopOrWait must release all of them.
 //
-//verif:h prop=C17 preempt=2/3 cover=released runs=5000000 timeout=250/900 steps=300000
+//verif:h prop=C17 preempt=2/3 cover=released runs=5000000 timeout=900/900 steps=300000
 func H_C17_stack_waiters() {
 	s := NewStack[int]()
 	s.Push(1)
@@ -320,7 +320,7 @@ func H_C17_stack_waiters() {
 
 // H_C17_counter_waiters: two goroutines wait on the same Counter condition; one update releases both.
 //
-//verif:h prop=C17 preempt=2/3 cover=released runs=5000000 timeout=250/900 steps=300000
+//verif:h prop=C17 preempt=2/3 cover=released runs=5000000 timeout=900/900 steps=300000
 func H_C17_counter_waiters() {
 	c := NewCounter()
 	c.Set(1)
